@@ -18,6 +18,9 @@ def chain(pid, checks_q, checks_t, steps=100, shards_t=16, floor=0.3, **kw):
         ],
     }
     extra = kw.pop("extra_units", None)
+    replay = kw.pop("replay", None)
+    if replay:
+        d["units"].insert(0, {"pkg": "app", "run": "^TestVerif_%s_Replay" % replay, "checks": 1, "timeout": 300})
     d.update(kw)
     if extra:
         d["units"] = d["units"] + extra
@@ -25,7 +28,7 @@ def chain(pid, checks_q, checks_t, steps=100, shards_t=16, floor=0.3, **kw):
 
 
 PROPS = {
-    "C01": chain("C01", 60, 1500, floor=0.5,
+    "C01": chain("C01", 60, 1500, replay="C01", floor=0.5,
         technique="property-based testing: rapid state machine over the real app (signed txs), conservation invariant + per-transaction balance-delta law",
         level_text="Generated transaction histories (all marketplace message types, several tenants/providers, zero to exhaustion-sized block gaps) are executed on the real application; after every transaction and block advance the escrow module balance is compared with a full scan of escrow records and every actor's bank delta with its own deposits/refunds/payouts.",
         level_note="Trusted: cosmos-sdk bank/auth modules, rapid; explores sampled histories only."),
@@ -35,15 +38,15 @@ PROPS = {
         level_note="Trusted: cosmos-sdk Int arithmetic; the keeper-level ledger bank is a harness stub; enumeration bounds are stated in the evidence.",
         extra_units=[{"pkg": "x/escrow/keeper", "run": "^TestVerif_C02_Enum$", "checks": 1, "norapid": True, "shards": {Q: 1, T: 16}, "timeout": {Q: 600, T: 3000},
                       "env": {"VERIF_C02_SHARDS": {Q: 1, T: 16}}}]),
-    "C03": chain("C03", 60, 1500, floor=0.3,
+    "C03": chain("C03", 60, 1500, replay="C03", floor=0.3,
         technique="property-based testing: rapid state machine over the real app, escrow record invariants + chain's own ValidateGenesis as oracle + close-takes-effect postconditions",
         level_text="Histories biased towards closes with zero elapsed blocks / zero accrued balance; after every step a full escrow scan checks open/closed/overdrawn agreement, zero balances of closed records, immutability of closed records, escrow.ValidateGenesis(ExportGenesis) and the postcondition of every successful close message.",
         level_note="Trusted: as C01; lazy settlement means only recorded states are related to each other."),
-    "C05": chain("C05", 60, 1500, floor=0.3,
+    "C05": chain("C05", 60, 1500, replay="C05", floor=0.3,
         technique="property-based testing: rapid state machine over the real app, join of market/deployment stores with escrow store after every transaction",
         level_text="After every transaction of generated histories the market/deployment records are joined with escrow records through the id mapping (lease<->payment, bid<->deposit account, deployment<->account) in both directions, plus per-record refund checks when a bid or deployment ends.",
         level_note="Trusted: as C01."),
-    "C04": chain("C04", 60, 1500, floor=0.3,
+    "C04": chain("C04", 60, 1500, replay="C04", floor=0.3,
         technique="property-based testing: rapid state machine over the real app, full scan of deployment and market stores after every transaction against the listed relations",
         level_text="After every transaction and block advance of generated multi-tenant histories (including overdrafts, pause/start/close of groups before and after overdraft) a full scan checks each relation of the statement between deployments, groups, orders, bids and leases, and the lease/bid/order price relation.",
         level_note="Trusted: as C01."),
@@ -59,7 +62,7 @@ PROPS = {
         technique="property-based testing: rapid state machine over the real app with near-miss construction; independent set-based admission predicate evaluated on the pre-state",
         level_text="Bids are generated against orders with generated attribute requirements and all-of/any-of auditor lists, with providers and attestations that are exactly sufficient or broken in one place; every accepted bid / provider update must satisfy the independent predicate on the pre-state (only-if direction; converse recorded as statistic).",
         level_note="Trusted: as C01."),
-    "C16": chain("C16", 60, 1500, floor=0.2,
+    "C16": chain("C16", 60, 1500, replay="C16", floor=0.2,
         technique="property-based testing: rapid state machine over the real app; expected typed-event multiset derived from the record diff vs events parsed as the provider parses them; codec round trip in package events",
         level_text="For every successful transaction the multiset of expected typed events is derived from the before/after record diff (including hook cascades) and compared with the transaction's akash.v1 events parsed through the module ParseEvent chain; spurious created/closed/paused/started events are rejected; all event types round-trip through the provider's real processEvent for generated ids and prices.",
         level_note="Trusted: as C01; events of failed transactions are ignored (they are never published).",
@@ -70,7 +73,8 @@ PROPS = {
         "level_text": "Generated create/revoke/get/list histories by three owners with serial numbers whose byte encodings are prefixes of each other (0, 1, 255, 256, 65535, 65536, 2^64, 2^158 ...) are checked against a map model: registration only by the named account and once per (owner, serial); valid->revoked only; entries never vanish; every keeper iterator and every gRPC listing (owner/state/serial filters, key- and offset-pagination, limits 1-5) returns without error or panic and contains each matching entry exactly once with its serial and state. Signer enforcement for certificate messages is exercised by the chain machine (C06).",
         "level_note": "Trusted: Go crypto/x509 for building certificates (serials it refuses to encode are outside the domain); explores sampled histories only; listings may contain non-matching extras without alarm (the statement only demands inclusion).",
         "assumptions": ["serial numbers are non-negative and encodable by crypto/x509 (<= 20 octets)"],
-        "units": [{"pkg": "x/cert/keeper", "run": "^TestVerif_C17$", "checks": {Q: 400, T: 6000}, "shards": {Q: 2, T: 16}, "steps": 60, "timeout": {Q: 600, T: 3000}, "shrinktime": "30s"}],
+        "units": [{"pkg": "x/cert/keeper", "run": "^TestVerif_C17_Replay$", "checks": 1, "timeout": 300},
+                  {"pkg": "x/cert/keeper", "run": "^TestVerif_C17$", "checks": {Q: 400, T: 6000}, "shards": {Q: 2, T: 16}, "steps": 60, "timeout": {Q: 600, T: 3000}, "shrinktime": "30s"}],
     },
     "C19": {
         "level": "exploration", "floor": 0.7,
@@ -79,6 +83,7 @@ PROPS = {
         "level_note": "Trusted: the oracle's reading of the limits table; a panic inside validation counts as rejection (as in baseapp.runTx).",
         "assumptions": ["network denomination uakt; limits as returned by GetValidationConfig() at run time"],
         "units": [
+            {"pkg": "app", "run": "^TestVerif_C19_Replay$", "checks": 1, "timeout": 300},
             {"pkg": "app", "run": "^TestVerif_C19_Direct$", "checks": {Q: 3000, T: 60000}, "shards": {Q: 2, T: 16}, "timeout": {Q: 600, T: 3000}, "shrinktime": "30s"},
             {"pkg": "app", "run": "^TestVerif_C19_Chain$", "checks": {Q: 30, T: 400}, "shards": {Q: 2, T: 16}, "steps": 60, "timeout": {Q: 600, T: 3000}, "shrinktime": "30s"},
         ],
@@ -102,7 +107,8 @@ PROPS = {
         "level_text": "Documents (1-4 services with image/command/args/env/exposes, 1-3 compute profiles in integral and decimal unit forms, 1-3 placements with attributes/signedBy/pricing, deployment map) are emitted as YAML twice - canonical and with every mapping's keys permuted - and read repeatedly: groups, manifest and version must be identical; every declared field must appear unchanged in manifest and groups (decimal quantities within one unit: the parser truncates a float product); the manifest must validate against the groups of the same document.",
         "level_note": "Trusted: the harness's YAML emitter; a document Read rejects is skipped (counted), a panic/error on an invalid document is a rejection.",
         "assumptions": ["documents are SDL v2 produced by the structural generator; no include directives"],
-        "units": [{"pkg": "sdl", "run": "^TestVerif_C18$", "checks": {Q: 1500, T: 40000}, "shards": {Q: 2, T: 16}, "timeout": {Q: 600, T: 3000}, "shrinktime": "30s"}],
+        "units": [{"pkg": "sdl", "run": "^TestVerif_C18_Replay$", "checks": 1, "timeout": 300},
+                  {"pkg": "sdl", "run": "^TestVerif_C18$", "checks": {Q: 1500, T: 40000}, "shards": {Q: 2, T: 16}, "timeout": {Q: 600, T: 3000}, "shrinktime": "30s"}],
     },
     "C11": {
         "level": "exploration", "floor": 0.5,
@@ -119,6 +125,7 @@ PROPS = {
         "level_note": "Trusted: Go crypto/tls and crypto/x509; wall clock only inside the code under test (validity windows are days away from the boundary); provider services are mockery mocks that record their arguments.",
         "assumptions": ["ECDSA P-256 certificates; TLS 1.3"],
         "units": [
+            {"pkg": "provider/gateway/rest", "run": "^TestVerif_C09_Replay$", "checks": 1, "timeout": 300},
             {"pkg": "provider/gateway/rest", "run": "^TestVerif_C09_Verify$", "checks": {Q: 400, T: 8000}, "shards": {Q: 2, T: 16}, "timeout": {Q: 600, T: 3000}, "shrinktime": "30s"},
             {"pkg": "provider/gateway/rest", "run": "^TestVerif_C09_Handshake$", "checks": {Q: 150, T: 2000}, "shards": {Q: 2, T: 16}, "timeout": {Q: 600, T: 3000}, "shrinktime": "30s"},
         ],
@@ -129,7 +136,8 @@ PROPS = {
         "level_text": "Generated histories of reserve / release / status / deployment events / node-snapshot changes (1-3 nodes, tight small-integer capacities, commit levels 0.5-3.7, 0-5 external ports) run against the real service: every grant must be packable (exact search over replica placements with the most lenient commit scaling) on the last reported availability and within the free ports; the number of reported reservations equals those outstanding; each reservation is reported with the same amounts every time; a release removes exactly one; and an identical twin service whose status is never queried must take the same reserve decisions.",
         "level_note": "Trusted: event-based synchronisation (a matching deployment event is followed by an observed Inventory() call before the history continues); the packing oracle only flags over-commitment (first-fit may legitimately refuse a packable set).",
         "assumptions": ["inventory poll period is one hour so refreshes happen only where the harness triggers them"],
-        "units": [{"pkg": "provider/cluster", "run": "^TestVerif_C12$", "checks": {Q: 300, T: 6000}, "shards": {Q: 2, T: 16}, "steps": 40, "timeout": {Q: 600, T: 3000}, "shrinktime": "30s"}],
+        "units": [{"pkg": "provider/cluster", "run": "^TestVerif_C12_Replay$", "checks": 1, "timeout": 300},
+                  {"pkg": "provider/cluster", "run": "^TestVerif_C12$", "checks": {Q: 300, T: 6000}, "shards": {Q: 2, T: 16}, "steps": 40, "timeout": {Q: 600, T: 3000}, "shrinktime": "30s"}],
     },
     "C13": {
         "level": "fault_enumeration", "floor": 0.4,
